@@ -297,6 +297,10 @@ func (db *DB) Merge() error {
 		return errors.New("not support mode `HintBPTSparseIdxMode`")
 	}
 
+	if db.closed {
+		return ErrDBClosed
+	}
+
 	db.isMerging = true
 
 	_, pendingMergeFIds = db.getMaxFileIDAndFileIDs()
@@ -948,16 +952,21 @@ func (db *DB) getBPTRootTxIDPath(fID int64) string {
 }
 
 func (db *DB) getPendingMergeEntries(entry *Entry, pendingMergeEntries []*Entry) []*Entry {
+	// A bucket has no index when the log only holds records of failed
+	// transactions for it: nothing of it is live, and a nil index must not be
+	// dereferenced.
 	if entry.Meta.ds == DataStructureBPTree {
-		if r, err := db.BPTreeIdx[string(entry.Meta.bucket)].Find(entry.Key); err == nil {
-			if r.H.meta.Flag == DataSetFlag {
-				pendingMergeEntries = append(pendingMergeEntries, entry)
+		if idx, ok := db.BPTreeIdx[string(entry.Meta.bucket)]; ok {
+			if r, err := idx.Find(entry.Key); err == nil {
+				if r.H.meta.Flag == DataSetFlag {
+					pendingMergeEntries = append(pendingMergeEntries, entry)
+				}
 			}
 		}
 	}
 
 	if entry.Meta.ds == DataStructureSet {
-		if db.SetIdx[string(entry.Meta.bucket)].SIsMember(string(entry.Key), entry.Value) {
+		if idx, ok := db.SetIdx[string(entry.Meta.bucket)]; ok && idx.SIsMember(string(entry.Key), entry.Value) {
 			pendingMergeEntries = append(pendingMergeEntries, entry)
 		}
 	}
@@ -966,15 +975,14 @@ func (db *DB) getPendingMergeEntries(entry *Entry, pendingMergeEntries []*Entry)
 		keyAndScore := strings.Split(string(entry.Key), SeparatorForZSetKey)
 		if len(keyAndScore) == 2 {
 			key := keyAndScore[0]
-			n := db.SortedSetIdx[string(entry.Meta.bucket)].GetByKey(key)
-			if n != nil {
+			if idx, ok := db.SortedSetIdx[string(entry.Meta.bucket)]; ok && idx.GetByKey(key) != nil {
 				pendingMergeEntries = append(pendingMergeEntries, entry)
 			}
 		}
 	}
 
-	if entry.Meta.ds == DataStructureList {
-		items, _ := db.ListIdx[string(entry.Meta.bucket)].LRange(string(entry.Key), 0, -1)
+	if idx, ok := db.ListIdx[string(entry.Meta.bucket)]; ok && entry.Meta.ds == DataStructureList {
+		items, _ := idx.LRange(string(entry.Key), 0, -1)
 		ok := false
 		if entry.Meta.Flag == DataRPushFlag || entry.Meta.Flag == DataLPushFlag {
 			for _, item := range items {
